@@ -75,6 +75,6 @@ def suites():
               rule="histories of 1-6 mutating commands (all six kinds, all date selections, explicit/automatic/rounded times, summaries, --resume/--resume-nth, flag conflicts, non-entry texts) on conforming documents; after every step: success => file parses, failure => bytes unchanged"),
         Suite("invalid-targets", gen_invalid_targets, oracle=oracle_c05, decisive=False, nontrivial=nontrivial,
               rule="the same commands on files with an injected fault or byte mutations (unparseable targets)"),
-        Suite("hostile-arguments", gen_hostile, oracle=oracle_c05, decisive=False, nontrivial=nontrivial, model=False,
-              rule="oracle-only (the model's commands take the texts the command line decoder lets through): histories whose user-supplied texts (track text, --summary) carry carriage returns, empty and blank lines, NUL, form feed, BOM, invalid UTF-8, percent signs, 5000-character lines, date-like and entry-like lines"),
+        Suite("hostile-arguments", gen_hostile, oracle=oracle_c05, decisive=False, nontrivial=nontrivial, model=False, env={"VERIF_WARN": "1"},
+              rule="oracle-only (the model's commands take the texts the command line decoder lets through), run WITHOUT --no-warn so that the warnings computed after the write are part of the command: histories whose user-supplied texts (track text, --summary) carry carriage returns, empty and blank lines, NUL, form feed, BOM, invalid UTF-8, percent signs, 5000-character lines, date-like and entry-like lines"),
     ]
